@@ -1,1 +1,80 @@
 // in-crate Kani harnesses included into the real crate under cfg(kani) (see MANIFEST.hooks)
+// C01/C05 leaf: OrderedHeaders::get_unique / get_all (same algorithm as OrderedQs, over borrowed strs).
+mod verif_kani_ordered_headers {
+    use super::*;
+
+    /// Constructor usable from the other in-crate harness files (`from_slice_unchecked` is cfg(test) only):
+    /// same body minus the name-alphabet assertion.
+    impl<'a> OrderedHeaders<'a> {
+        pub(crate) fn kani_from_slice(slice: &[(&'a str, &'a str)]) -> Self {
+            let mut headers = Vec::new();
+            headers.extend_from_slice(slice);
+            stable_sort_by_first(&mut headers);
+            Self { headers }
+        }
+    }
+
+    const NAMES: [&str; 2] = ["a", "b"];
+    const VALUES: [&str; 3] = ["0", "1", "2"];
+
+    /// N header lines (name_i, value_i): name_i is "a" or "b" by a symbolic flag, value_i is the decimal input
+    /// position.  For n in {"a","b"} and the absent name "c": get_unique(n) = Some(value) iff exactly one line is
+    /// named n; get_all(n) yields exactly the values of the lines named n, in input order (stable sort).
+    fn leaf<const N: usize>() {
+        let mut flags = [false; N];
+        let mut lines: [(&str, &str); N] = [("", ""); N];
+        let mut i = 0;
+        while i < N {
+            flags[i] = kani::any();
+            lines[i] = (NAMES[flags[i] as usize], VALUES[i]);
+            i += 1;
+        }
+        let hs = OrderedHeaders::kani_from_slice(&lines);
+        assert!(hs.as_ref().len() == N);
+
+        let probes: [(&str, u8); 3] = [("a", 0), ("b", 1), ("c", 2)];
+        let mut p = 0;
+        while p < 3 {
+            let (name, which) = probes[p];
+            let mut cnt = 0usize;
+            let mut pos = [0u8; N];
+            let mut i = 0;
+            while i < N {
+                if flags[i] as u8 == which {
+                    pos[cnt] = b'0' + i as u8;
+                    cnt += 1;
+                }
+                i += 1;
+            }
+            match hs.get_unique(name) {
+                Some(v) => {
+                    assert!(cnt == 1);
+                    assert!(v.len() == 1 && v.as_bytes()[0] == pos[0]);
+                }
+                None => assert!(cnt != 1),
+            }
+            let mut k = 0usize;
+            for v in hs.get_all(name) {
+                assert!(k < cnt);
+                assert!(v.len() == 1 && v.as_bytes()[0] == pos[k]);
+                k += 1;
+            }
+            assert!(k == cnt);
+            p += 1;
+        }
+        core::mem::forget(hs);
+        kani::cover!(true);
+    }
+
+    #[kani::proof]
+    #[kani::unwind(8)]
+    fn c01_ordered_headers_leaf_2lines() {
+        leaf::<2>();
+    }
+
+    #[kani::proof]
+    #[kani::unwind(10)]
+    fn c01_ordered_headers_leaf_3lines() {
+        leaf::<3>();
+    }
+}
